@@ -485,14 +485,16 @@ class Configuration(_Configuration):
         return self.parser.tokeniser
 
     def _clear(self) -> None:
+        self._previous_processes = self.processes
         self.processes = {}
         self._previous_neighbors = self.neighbors
         self.neighbors = {}
         self._neighbors = {}
 
     # clear the parser data (ie: free memory)
-    def _cleanup(self) -> None:
-        self.error.clear()
+    def _cleanup(self, error: bool = True) -> None:
+        if error:
+            self.error.clear()
         self.parser.clear()
         self.scope.clear()
 
@@ -523,9 +525,15 @@ class Configuration(_Configuration):
 
     def _rollback_reload(self) -> None:
         self.neighbors = self._previous_neighbors
-        self.processes = self.process.processes
+        # The processes of BEFORE the reload, like the neighbors: the half parsed set of the rejected file was put
+        # here, and the reactor then terminated every API process which was missing from it.
+        self.processes = getattr(self, '_previous_processes', self.processes)
         self._neighbors = {}
         self._previous_neighbors = {}
+        # What the rejected file left in the parser (the neighbors seen so far, their routes, the scope) goes
+        # too, the error message stays: kept, every later reload of a correct file failed with "duplicate peer
+        # definition", and routes which only ever existed in the rejected file were announced by the next good one.
+        self._cleanup(error=False)
 
     def _commit_reload(self) -> None:
         self.neighbors = self.neighbor.neighbors
